@@ -598,25 +598,23 @@ def _leads_to_error_return(fn, g, node, depth=0):
 
 
 def _loop_covers(fn, pv):
-    """the scan starts at 16 - padLen and runs up to 16 (ascending), or an equivalent descending scan"""
-    start = False
-    bound = False
+    """the scan covers the octets [16 - padLen, 16): an ascending scan from 16 - padLen up to 16 or a descending one from
+    15 down to 16 - padLen; the difference 16 - padLen (or 15 - padLen) must be what bounds it on the low side"""
+    low = False
+    high = False
     for el in fn.all_elements():
         for sub in ir.walk(fn, el.e):
-            if sub[0] in ("=", "d"):
-                rhs = sub[2]
-                if rhs is None:
-                    continue
-                r = ir.strip_casts(fn.resolve(rhs))
-                if isinstance(r, list) and r and r[0] == "b" and r[1] == "-" and _const(fn, r[2]) == 16 and ir.strip_casts(fn.resolve(r[3])) == ["v", pv]:
-                    start = True
+            if sub[0] == "b" and sub[1] == "-" and _const(fn, sub[2]) in (15, 16) and ir.strip_casts(fn.resolve(sub[3])) == ["v", pv]:
+                low = True
+            if sub[0] in ("=", "d") and sub[2] is not None and _const(fn, sub[2]) in (15, 16):
+                high = True
     for b in fn.blocks.values():
         t = getattr(b, "term", None)
         if t and t.get("c") is not None:
             c = ir.strip_casts(fn.resolve(t["c"]))
-            if isinstance(c, list) and c and c[0] == "b" and c[1] == "<" and _const(fn, c[3]) == 16:
-                bound = True
-    return start and bound
+            if isinstance(c, list) and c and c[0] == "b" and c[1] in ("<", "<=") and _const(fn, c[3]) in (15, 16):
+                high = True
+    return low and high
 
 
 # ---------------------------------------------------------------------- HMAC-KEY
